@@ -18,3 +18,22 @@ na("C17", "idempotence relates two complete runs over all inputs and has no stru
 del NOT_APPLICABLE["C15"]
 claim("C15", "DESIGN §3.3, §4 C15", "SSA decision-DAG truth table + def-use error discipline (static)",
       "Decides for all inputs and the four diagnostic configurations: the two diagnostics options are read only inside the three handlers (ERR-ni); each handler records iff reporting is on and returns its error iff failure or fail-on-validation-error, by an 8-row truth table over its extracted decision DAG (ERR-shape); every non-nil result of a handler or of a function deriving its error from one aborts the caller or is wrapped as a cause (ERR-callsite), so the flags can only change behaviour by aborting; every error reaching the result of a parse is a handler-built *ValidationError with a declared non-empty type (ERR-origin, ERR-access); the missing-scheme type the canonicalizer keys on is emitted at exactly one failure site (ERR-xpkg). Under fail-on-validation-error the returned record deliberately carries failure=false; no rule is armed against that.")
+
+# --- SM / COST based (first clauses; texts are extended as rules are added) ---
+SMT = "AST path enumeration of the parser state machine (3-valued conditions, rune-class refinement) compared with tables of the standard (static)"
+for pid in ["C01","C02","C05","C06","C07","C08","C20"]:
+    del NOT_APPLICABLE[pid]
+claim("C01", "DESIGN §3.1, §3.5, §4 C01", SMT,
+      "Decides for all inputs and bases: on every path of every state clause the components inherited from the base, nulled or reset equal the standard's table (SM-inherit), and the set of 'return failure' points of the URL, host, IPv4 and IPv6 parsers - each really aborting - equals the standard's (SM-failpoints). Does not decide per-character behaviour inside a state, IPv4/IPv6 arithmetic and serialisation, path shortening details, IDNA.")
+claim("C02", "DESIGN §3.1, §3.7, §4 C02", SMT + " + termination ranking",
+      "Decides for all inputs, option values and call histories: the main loop has a ranking (head advances, exits on eof, no path that stays rewinds, state graph acyclic: SM-rank); base is never dereferenced when nil (SM-base); url.query is non-nil wherever it is stored through (SM-query); a parse returns a non-nil URL or a non-nil error (SM-result). Does not decide resource exhaustion or panics inside dependencies.")
+claim("C05", "DESIGN §3.1, §4 C05", SMT,
+      "Decides for every URL state and every value: the set of primary components each setter's state-override run of the parser is able to change equals the set the standard's setter may change, and only the setter's states run (SM-footprint). Does not decide the resulting values.")
+claim("C06", "DESIGN §3.1, §3.9, §4 C06", SMT,
+      "Decides for all bases and references: a '#f' reference against an opaque base inherits exactly scheme, path and query and is the only accepted relative form (no-scheme rows of SM-inherit / SM-failpoints); '?q', '#f' and empty references inherit exactly scheme, credentials, host, port, path (and query) (relative rows); a scheme-less reference takes the base's scheme on every path. Does not decide that the serialization of u resolves to u.")
+claim("C07", "DESIGN §3.1, §3.9, §4 C07", SMT,
+      "Decides: the rejection points of the IPv4 parser are exactly the standard's and each aborts (SM-failpoints rows of parseIPv4/parseIPv4Number). Does not decide radix detection, value assembly, serialisation.")
+claim("C08", "DESIGN §3.1, §3.9, §4 C08", SMT,
+      "Decides: every validation error of the IPv6 parser is a failure that aborts, and the 13 failure points are the standard's (SM-failpoints rows of parseIPv6, IPv6Unclosed). Does not decide piece arithmetic, compression choice, canonical text.")
+claim("C20", "DESIGN §3.8, §4 C20", "SSA loop analysis (natural loops, constant bounds, self-feeding concatenations) + state-machine path facts (static)",
+      "Decides the absence of the two super-linear mechanisms the anchors name: no string is accumulated by concatenation around an input-dependent loop (COST-concat), no conversion copies an open-ended slice or a loop-invariant string inside such a loop and O(remaining-input) cursor helpers run only on paths that leave their state (COST-copy, SM-onevisit). Does not decide the bound itself (amortised re-scans, allocation volume, cost inside dependencies).")
